@@ -71,7 +71,11 @@ func (c19) Run(c *Ctx, i int) CaseResult {
 	if nResp > 0 && r.Intn(3) == 0 {
 		failAt = r.Intn(nResp)
 	}
-	query := []string{`{ me { firstName lastName } }`, `{ allUsers { firstName lastName nick } }`, `{ me { friends { lastName } } }`, `{ me { id firstName lastName } }`}[r.Intn(4)]
+	query := []string{`{ me { firstName lastName } }`, `{ allUsers { firstName lastName nick } }`, `{ me { friends { lastName } } }`, `{ me { id firstName lastName } }`,
+		// several joins in one request, through single objects and through lists, in either order
+		`{ me { lastName } allUsers { lastName } }`, `{ allUsers { nick } me { nick photos { likes } } }`,
+		`{ topPhoto { likes owner { nick } } me { lastName favorite { likes } } allUsers { lastName } }`,
+		`{ me { friends { nick } lastName } user(id: "u2") { lastName photos { likes } } }`}[r.Intn(8)]
 	fault := []string{"none", "none", "dependent", "root"}[r.Intn(4)]
 	res := CaseResult{ID: fmt.Sprintf("gen:%d", i), Key: fmt.Sprint(nResp, nReq, failAt, query, fault, i%7)}
 	log := &mwLog{}
